@@ -1,6 +1,6 @@
 """C11 — transform strings and affine algebra (engine E1)."""
 from fractions import Fraction as F
-import itertools, math
+import itertools, math, re
 from picosvg.svg_transform import Affine2D
 from picosvg.geometric_types import Rect, Point
 from common import *
@@ -165,6 +165,15 @@ def corr_strings(ctx, stats):
         if s in seen: continue
         seen.add(s)
         if any(c in s for c in '_') or 'inf' in s.lower() or 'nan' in s.lower(): continue
+        # cos / sin / tan of an angle of 1e16 degrees: binary64 argument reduction decides the value, the exact model cannot follow
+        # (same exclusion as tan(90 deg)); such angles only arise from the single-character mutations
+        huge = False
+        for mm in re.finditer(r'(?i)(rotate|skewx|skewy)\s*\(\s*([-+]?[0-9.]+(?:e[-+]?[0-9]+)?)', s):
+            try: huge = huge or abs(float(mm.group(2))) > 1e5
+            except ValueError: pass
+        if huge:
+            stats['distribution']['tf_skipped_huge_angle'] = stats['distribution'].get('tf_skipped_huge_angle', 0) + 1
+            continue
         impl = impl_parse(s)
         mod = m.call('parse_svg_transform', s)
         stats['evaluations'] += 1
